@@ -1075,7 +1075,96 @@ def r15_no_write_after_conditional_handover(ctx, rule_id='R-C03.15'):
                'keeps `x or fresh`' % rule_id] = n_calls
 
 
+def r16_every_mutator_replays_its_simulation(ctx, rule_id='R-C03.16'):
+    """AppMutator.to_sql() resets the signature to its original state and
+    generates SQL in a second pass.  Whatever a mutation's simulate() did to
+    the signature in the first pass exists in the second only if it is
+    simulated again: ModelMutator does that per finished op (finish_op),
+    UpgradeMethodMutator in finalize().  Every kind of mutator that
+    AppMutator stores in `_mutators` must do the same (itself, or in
+    to_sql's loop) - otherwise the mutators that follow lower their
+    operations against a signature in which the mutation never happened (a
+    column added by an SQLMutation is dropped by the next table rebuild of
+    the same run)."""
+    ctx.rule(rule_id)
+    p = ctx.program
+    am = p.cls('mutators.app_mutator', 'AppMutator')
+    # classes whose instances end up in self._mutators
+    kinds = set()
+    for f in am.methods.values():
+        for n in walk_no_nested(f.node):
+            if isinstance(n, ast.Call) and isinstance(n.func, ast.Name):
+                for mm in p.modules.values():
+                    if n.func.id in mm.classes and \
+                            mm.name.startswith('django_evolution.mutators') \
+                            and n.func.id.endswith('Mutator'):
+                        kinds.add(n.func.id)
+    ctx.floor('mutator classes created by AppMutator', len(kinds), 3)
+    by_name = {}
+    for mm in p.modules.values():
+        for fn in mm.all_funcs():
+            by_name.setdefault(fn.name, []).append(fn)
+
+    def reaches_simulation(start, depth=5):
+        seen, work = set(), [(s_, 0) for s_ in start]
+        while work:
+            fn, d = work.pop()
+            if id(fn) in seen:
+                continue
+            seen.add(id(fn))
+            for c in walk_no_nested(fn.node):
+                if isinstance(c, ast.Call):
+                    nm = call_name(c)
+                    if nm == 'run_simulation':
+                        return True
+                    if d < depth and nm in by_name and \
+                            isinstance(c.func, ast.Attribute):
+                        recv = c.func.value
+                        if isinstance(recv, ast.Name) and \
+                                recv.id in ('self', 'cls') or (
+                                    isinstance(recv, ast.Call) and
+                                    call_name(recv) == 'super'):
+                            targets, _prec = p.resolve_call(fn, c)
+                        else:
+                            targets = [t for t in by_name[nm]
+                                       if t.module.name.startswith(
+                                           ('django_evolution.mutators',
+                                            'django_evolution.db'))]
+                        work.extend((t, d + 1) for t in targets)
+        return False
+    to_sql = am.methods['to_sql']
+    for k in sorted(kinds):
+        kc = None
+        for mm in p.modules.values():
+            if k in mm.classes:
+                kc = mm.classes[k]
+        starts = [m for m in (kc.find_method('to_sql'),
+                              kc.find_method('finalize')) if m is not None]
+        own = reaches_simulation(starts)
+        in_loop = False
+        for n in walk_no_nested(to_sql.node):
+            if isinstance(n, ast.If) and any(
+                    isinstance(c, ast.Call) and call_name(c) == 'isinstance'
+                    and k in unparse(c) for c in ast.walk(n.test)) and any(
+                    isinstance(c, ast.Call) and
+                    call_name(c) in ('run_simulation', '_run_simulation')
+                    for st in n.body for c in ast.walk(st)):
+                in_loop = True
+        if own or in_loop:
+            ctx.ok(to_sql, '%s: the mutation is simulated again in the SQL '
+                   'generation pass (%s)' % (
+                       k, 'by the mutator' if own else 'by to_sql'))
+        else:
+            ctx.finding(to_sql, None, 'a %s is stored in AppMutator._mutators '
+                        'but neither its to_sql()/finalize() nor '
+                        'AppMutator.to_sql() simulates its mutation again '
+                        'after the signature was reset: later mutators of '
+                        'the run generate SQL from a signature that lacks '
+                        'its changes' % k, key='not-replayed:%s' % k)
+
+
 def run(ctx):
+    r16_every_mutator_replays_its_simulation(ctx)
     r15_no_write_after_conditional_handover(ctx)
     r14_mutation_state_not_aliased(ctx)
     r13_merged_copy_map(ctx)
